@@ -522,8 +522,12 @@ func checkC04(r *Result) {
 	}
 	// the dispute account pays voter rewards out of one pot per dispute: the shares add up to at most that pot only
 	// if a claimant's tips and the group total they are divided by are tips at the same height
+	{
+		ok, det, pos := divvyShareForm(P)
+		r.check(ok, "CLAIM-SHARES", "(x/reporter/keeper.Keeper).DivvyingTips # each origin is credited (reward - commission) x its own amount / snapshot total: the credits of a payout do not exceed what was moved into the tips escrow", P.Pos(pos), det)
+	}
 	checkTipsBlock(r, "CLAIM-SHARES")
-	r.minCount("CLAIM-SHARES", 3)
+	r.minCount("CLAIM-SHARES", 4)
 	r.minCount("CENSUS-ESCROW", 13)
 	r.minCount("MOVER-SOURCES", 5)
 	r.minCount("TIP-PAIR", 3)
